@@ -7,7 +7,7 @@ GOSTD = "Go compiler/runtime and the standard library pieces the code uses (bufi
 PROTO = dict(driver="driverproto", lake_targets=["driverproto"], tools=["harness"])
 
 PROPS = {
-    "C03": dict(PROTO, suites=["c03"], exhaustive=True,
+    "C03": dict(PROTO, suites=["c03", "c03x@"], exhaustive=True,
         trivial=r"^$",
         rule="T lines: all 7 commands x all 65536 addresses through VeCommand on a silent port (exhaustive), real frame vs Lean `tx`; "
              "P lines: every typed entry point (raw/uint/int/str, ping, devid) on a silent port (8 attempts) over a stride of addresses (all 65536 in thorough); "
@@ -45,7 +45,7 @@ PROPS.update({
         rule="(c06api, oracle only: every reader of every register definition through the real register API against a device that is silent / sends garbage / answers once with an odd width and falls silent / refuses: no panic, at most eight command frames per register access) structured streams (every response nibble x payload lengths 0..5, the valid frames of type 1/5/7 cut at every length, degenerate frames) x 15 call kinds; a failing Write/Read/Flush at every call index 0..9 for every call kind in three port situations; random byte streams biased to frame characters with embedded real frames and random faults; PANIC is an output value compared with the model",
         trusted_base=[KERNEL, HARNESS, GOSTD, MODEL_PROTO],
         assumptions=[CLOCK, "memory safety and liveness of the Go runtime, bufio's behaviour on 100 consecutive empty reads and an infinite stream are outside the model", "a hang of the real code shows as a harness timeout (reported as violation)"],
-        explanation="theorems: veCommand_no_panic, get_no_panic, typed_no_panic, deviceId_no_panic, ping_no_panic, writes_bounded (<= 8), reads_bounded (<= credit + 8: every Read delivers device data or ends the attempt); totality of every model function is Lean's termination check"),
+        explanation="theorems: veCommand_no_panic, get_no_panic, typed_no_panic, deviceId_no_panic, ping_no_panic, writes_bounded (<= 8), reads_bounded (<= credit + 8: every Read delivers device data or ends the attempt), failing_reads_bounded / command_failing_reads_bounded (at most eight Reads that deliver nothing per register access, one per command: the 'bounded number of reads once the port reports no more data' clause); totality of every model function is Lean's termination check"),
     "C18": dict(PROTO, suites=["c18"], trivial=r"^$", timeout=3000,
         rule="every scenario class of C01/C04/C05/C06 (sampled) and typed-call histories under all four logger configurations; traffic (results, bytes written, reads, flushes) compared across configurations by the harness and with the model; every I/O-log line parsed back with strconv.QuotedPrefix/Unquote; every single-exchange line replayed through a lookup port against the real driver; the file logger on real temporary files with previous content and 0..10000 lines",
         trusted_base=[KERNEL, HARNESS, GOSTD, MODEL_PROTO, "strconv.Unquote as the inverse of %q; OS append semantics"],
@@ -58,22 +58,22 @@ T1 = "tools/extract (T1): the enumeration loops over all 65536 product ids, 256 
 MODEL_TABLES = "hand-written models Victron/Model/{Tables,Select}.lean (lookups, NewEnum range check, Fields/CommaString, list algebra, product->list switch) tied to the code by the correspondence check (T3)"
 
 PROPS.update({
-    "C12": dict(TABLES, suites=["c12"], exhaustive=True, trivial=r"^$",
+    "C12": dict(TABLES, suites=["c12", "c12cold@"], exhaustive=True, trivial=r"^$",
         rule="all 65536 product ids: the real GetRegisterListByProduct result (error kind + every attribute of every register) is grouped by identical content; per distinct content one SL line compares the full list with Select.list, and SG lines ask the model whether all ids of the group select the same list (500 ids per line) — i.e. full comparison for every id; the Go oracle independently checks class membership, uniqueness, factors, decoders per id",
         trusted_base=[KERNEL, HARNESS, GOSTD, T1, MODEL_TABLES],
         assumptions=["the load-output class is identified by the current rating (10, 15, 20 A) read off the model designation", "a product's class is the one of the product family of its id block (0x02xx BMV, 0xA38x smart BMV / SmartShunt, ...): the oracle reports a product whose type contradicts its id block", "Append functions append the same registers whatever the list already holds (validated by the exhaustive comparison)"],
         explanation="theorems: rows_ok (decide +kernel over every product row), list_by_class (all ids), class_solely, unsupported_empty, supported_ok, lists_ok (names/addresses unique, factors non-zero, decoders present in each of the 5 class lists), load_class"),
-    "C13": dict(TABLES, suites=["c13"], exhaustive=True, trivial=r"^0\|\|0\|\|-1\|-1\|0\|$",
+    "C13": dict(TABLES, suites=["c13", "c13cold@"], exhaustive=True, trivial=r"^0\|\|0\|\|-1\|-1\|0\|$",
         rule="all 65536 product ids (Exists, Model, Type, String, MaxPanelVoltage, MaxPanelCurrent, membership and value in GetStringMap), all 256 type values, all 256 command bytes: real observables vs the lookup in the regenerated table; non-trivial = a known product / named type / any response line; the Go oracle evaluates the property's predicates per id to name an offending id",
         trusted_base=[KERNEL, HARNESS, T1],
         assumptions=["id ranges of the categories: 0x02xx and 0xA38x BMV; 0x03xx, 0xA0xx, 0xA1xx solar; 0xA2xx and 0xA34x inverter; and of the product families within them: 0x02xx BMV, 0xA38x BMV Smart / SmartShunt, 0x03xx BlueSolar, 0xA0xx Blue/SmartSolar MPPT, 0xA1xx their VE.Can variants, 0xA2xx Phoenix Inverter (Smart), 0xA34x IP43 charger", "Phoenix ids 0xA2xy: x power class, y&7 battery voltage, y&8 120 V AC"],
         explanation="theorems: rows_ok / types_ok / ids_ascending / map_size (decide +kernel over the whole tables), known_iff, display_string, one_category, panel_numbers, phoenix_model, types_partition, ten_types — lifted to ALL ids by the lookup lemma"),
-    "C14": dict(TABLES, suites=["c14"], trivial=r"^err:invalid-enum$",
+    "C14": dict(TABLES, suites=["c14", "c14cold@"], trivial=r"^err:invalid-enum$",
         rule="per factory (20): NewEnum over every integer in [-70000, 70000] (summarised as the accepted set with index and name, one ENR line), extreme integers (±2^63, ±2^31, 2^32+k, 2^16+k, …), random 64-bit integers, the typed constructor over all 256 bytes, IntToStringMap; the Go oracle checks 'succeeds iff key, index v, mapped non-empty name, else ErrInvalidEnumIdx' for each integer (coverage.measured.integers_checked)",
         trusted_base=[KERNEL, HARNESS, T1, MODEL_TABLES],
         assumptions=["NewEnum is a range check followed by the typed constructor on the byte (model); validated by the correspondence on 2.8 million integers per run"],
         explanation="theorems: tables_ok (decide +kernel: 20 tables x 256 bytes), newEnum_iff / newEnum_value / newEnum_error for EVERY integer v, typed_agrees"),
-    "C15": dict(TABLES, suites=["c15"], trivial=r"^$", exhaustive={"quick": False, "thorough": False},
+    "C15": dict(TABLES, suites=["c15", "c15cold@"], trivial=r"^$", exhaustive={"quick": False, "thorough": False},
         rule="per field-list type: all combinations of the documented bits x settings of the remaining bits (zero, all ones, random, bits >= 32), the 16-bit type exhaustively; Fields() compared with the model; each value rendered through the real register API (StreamRegisterList -> FieldListValue.CommaString) 8 times: all renderings identical, names exactly the set fields, equal to the model's rendering",
         trusted_base=[KERNEL, HARNESS, T1, MODEL_TABLES],
         assumptions=["determinism of a Go function that ranges over a map cannot be proved from a model; in the model rendering is a function, the repeated-rendering oracle checks the code"],
